@@ -38,6 +38,16 @@ pub fn seeds(ep: &str) -> Vec<Vec<u8>> {
         "json_array_split" | "json_array_object" => vec![s("[{\"name\": \"a\", \"n\": 1}, {\"name\": \"b\", \"n\": -2}]"), s("[ ]"), s("[[1,2],[3,[4,5]],{\"k\":\"v\"},\"s\",null,true,-1.5e3]"), s("[\"a,b\", \"c]d\"]")],
         "json_array_i128" => vec![s("[1, -2, 170141183460469231731687303715884105727]"), s("[]"), s("[0]"), s("[-0, 00, 1e3]")],
         "json_array_u8" => vec![s("[0, 255, 7]"), s("[256]"), s("[-1]"), s("[1.5]")],
+        "json_array_i8" | "json_array_i16" | "json_array_i32" | "json_array_i64" => vec![s("[1, -2, 127]"), s("[]"), s("[-128, 0]")],
+        "json_array_u16" | "json_array_u32" | "json_array_u64" | "json_array_u128" => vec![s("[0, 255, 7]"), s("[65535]"), s("[]")],
+        "json_array_f32" => vec![s("[0.0, -1.5, 3.4028235e38]"), s("[1]"), s("[1e-45]")],
+        "json_property_parse" => vec![s("\"name\": \"value\""), s("\"n\": -12"), s("\"f\": 1.5e3"), s("\"o\": { \"a\": [1, 2] }")],
+        "url_parse" => vec![s("http://user:pw@example.com:8080/p/a/t/h?query=1&b=%20#frag"), s("https://[::1]:443/"), s("http://h")],
+        "url_parse_query" => vec![s("a=1&b=two%20words&c=%E2%82%AC&d"), s("=&&="), s("x=%")],
+        "cli_parse" => vec![s("--port=7878\n--ip=127.0.0.1\n-t=4\n--cors-allow-origins=https://a.example,https://b.example"), s("-p=1\n--unknown=2\n=\n--"), s("--port")],
+        "range_multipart_body" => vec![s("--String_separator\r\nContent-Type: text/plain\r\nContent-Range: bytes 0-1/10\r\n\r\nab\r\n--String_separator\r\nContent-Type: text/plain\r\nContent-Range: bytes 4-5/10\r\n\r\nef\r\n--String_separator")],
+        "range_in_content_range" => vec![s("0-1"), s("5-"), s("-3"), s(" 2 - 4 ")],
+        "base64_decode_sequence" => vec![s("TWFu"), s("TQ=="), s("TWE=")],
         "json_array_f64" => vec![s("[0.0, -1.5, 1e21, 5e-324]"), s("[1]"), s("[.5, 5., 1e, -]"), s("[NaN, Infinity]")],
         "json_array_string" => vec![s("[\"a\", \"b c\", \"\"]"), s("[\"\\\"q\\\"\", \"\\\\\"]"), s("[\"\u{e9}\"]"), s("[\"unterminated]")],
         "json_array_bool" => vec![s("[true, false]"), s("[True]"), s("[tru]"), s("[truefalse]")],
@@ -135,7 +145,8 @@ pub fn mutants(seed: &[u8], m: &Value) -> Vec<Vec<u8>> {
         // numeric boundary substitution: the k-th maximal digit run of the seed (op number: each run in turn; op numbers: all
         // runs at once) is replaced by the at-th special value
         "number" | "numbers" => {
-            const SPECIAL: [&str; 24] = ["0", "1", "127", "128", "255", "256", "32767", "32768", "65535", "65536", "2147483647", "2147483648",
+            const SPECIAL: [&str; 32] = ["-129", "-32769", "-2147483649", "-9223372036854775809", "-170141183460469231731687303715884105729",
+                "-128", "-32768", "-0","0", "1", "127", "128", "255", "256", "32767", "32768", "65535", "65536", "2147483647", "2147483648",
                 "4294967295", "4294967296", "9223372036854775807", "9223372036854775808", "18446744073709551615", "18446744073709551616",
                 "170141183460469231731687303715884105727", "340282366920938463463374607431768211456", "-1", "-9223372036854775808",
                 "00000000000000000000000000000001", "1e400"];
@@ -207,6 +218,38 @@ fn call(ep: &str, input: &[u8]) -> Option<bool> {
         "json_array_object" => JSONArrayOfObjects::<crate::d_json::Leaf>::from_json(text(input)?).is_ok(),
         "json_array_i128" => JSONArrayOfIntegers::parse_as_list_i128(text(input)?).is_ok(),
         "json_array_u8" => JSONArrayOfIntegers::parse_as_list_u8(text(input)?).is_ok(),
+        "json_array_i8" => JSONArrayOfIntegers::parse_as_list_i8(text(input)?).is_ok(),
+        "json_array_i16" => JSONArrayOfIntegers::parse_as_list_i16(text(input)?).is_ok(),
+        "json_array_i32" => JSONArrayOfIntegers::parse_as_list_i32(text(input)?).is_ok(),
+        "json_array_i64" => JSONArrayOfIntegers::parse_as_list_i64(text(input)?).is_ok(),
+        "json_array_u16" => JSONArrayOfIntegers::parse_as_list_u16(text(input)?).is_ok(),
+        "json_array_u32" => JSONArrayOfIntegers::parse_as_list_u32(text(input)?).is_ok(),
+        "json_array_u64" => JSONArrayOfIntegers::parse_as_list_u64(text(input)?).is_ok(),
+        "json_array_u128" => JSONArrayOfIntegers::parse_as_list_u128(text(input)?).is_ok(),
+        "json_array_f32" => JSONArrayOfFloats::parse_as_list_f32(text(input)?).is_ok(),
+        "json_property_parse" => rws::json::property::JSONProperty::parse(&text(input)?).is_ok(),
+        "url_parse" => rws::url::URL::parse(&text(input)?).is_ok(),
+        "url_parse_query" => { let _ = rws::url::URL::parse_query(&text(input)?); true }
+        "cli_parse" => {
+            // one argument per line; the parser applies what it recognises to the process environment: restore it afterwards
+            let saved: Vec<(String, String)> = std::env::vars().filter(|(k, _)| k.starts_with("RWS_CONFIG_")).collect();
+            let args: Vec<String> = text(input)?.split('\n').map(|x| x.to_string()).collect();
+            let params = rws::entry_point::command_line_args::CommandLineArgument::get_command_line_arg_list();
+            let _ = rws::entry_point::command_line_args::CommandLineArgument::_parse(args, params);
+            for (k, _) in std::env::vars().filter(|(k, _)| k.starts_with("RWS_CONFIG_")).collect::<Vec<_>>() {
+                std::env::remove_var(k);
+            }
+            for (k, v) in saved {
+                std::env::set_var(k, v);
+            }
+            true
+        }
+        "range_multipart_body" => {
+            let mut cursor = std::io::Cursor::new(input);
+            Range::parse_multipart_body(&mut cursor, vec![]).is_ok()
+        }
+        "range_in_content_range" => Range::parse_range_in_content_range(100, &text(input)?).is_ok(),
+        "base64_decode_sequence" => Base64::decode_sequence(text(input)?).is_ok(),
         "json_array_f64" => JSONArrayOfFloats::parse_as_list_f64(text(input)?).is_ok(),
         "json_array_string" => JSONArrayOfStrings::parse_as_list_string(text(input)?).is_ok(),
         "json_array_bool" => JSONArrayOfBooleans::parse_as_list_bool(text(input)?).is_ok(),
